@@ -501,6 +501,29 @@ func c18DigestAlgs(r *core.Run) {
 	}
 }
 
+// c18CStrRecords: size-prefixed strings written down byte by byte, well-formed or not (a declared
+// size of zero, a missing terminator, terminators inside). Accepted bytes re-encode to themselves.
+func c18CStrRecords(r *core.Run) {
+	recs := [][]byte{{0}, {1, 0}, {1, 'A'}, {2, 'A', 0}, {2, 0, 0}, {3, 'A', 0, 0}, {3, 'A', 0, 'B'}, {2, 'A', 'B'}, {4, 'A', 'B', 'C', 0}}
+	raw := append(append([]byte(nil), recs[r.Intn(len(recs), "cstr-record")]...), 0x77, 0x77) // two more bytes follow in the stream
+	var v eventlog.ByteSizedCStr
+	rd := bytes.NewReader(raw)
+	err := v.Unmarshal(rd)
+	used := len(raw) - rd.Len()
+	r.Eval(fmt.Sprintf("ByteSizedCStr|record=%x|accepted=%v", raw[:len(raw)-2], err == nil), true)
+	if err != nil {
+		return
+	}
+	var out bytes.Buffer
+	if merr := v.Marshal(&out); merr != nil {
+		r.Fail("truncation-accepted", "ByteSizedCStr/accepted-but-not-encodable", "ByteSizedCStr: the record % x is decoded (%d bytes taken, value %q) but the value cannot be encoded: %v", raw[:len(raw)-2], used, v.Data, merr)
+		return
+	}
+	if !bytes.Equal(out.Bytes(), raw[:used]) {
+		r.Fail("chunking-changes-result", "ByteSizedCStr/roundtrip-of-accepted-bytes", "ByteSizedCStr: the accepted record % x (value %q) re-encodes to % x", raw[:used], v.Data, out.Bytes())
+	}
+}
+
 func firstDiff(a, b []byte) int {
 	for i := 0; i < len(a) && i < len(b); i++ {
 		if a[i] != b[i] {
@@ -529,6 +552,9 @@ func runC18(r *core.Run) {
 	}
 	if r.Chance(10, "digest-algs?") {
 		c18DigestAlgs(r)
+	}
+	if r.Chance(10, "cstr-records?") {
+		c18CStrRecords(r)
 	}
 	// the value under test and a factory for empty values of its type
 	var v streamable
